@@ -164,29 +164,7 @@ func checkC12(c *Ctx) {
 		}
 	}
 	// (3)
-	dvf := l.Func("", "*nodeDB.DeleteVersionsFrom")
-	tr := l.Func("", "*nodeDB.traverseRange")
-	if dvf == nil || tr == nil {
-		c.anchorMissing("FLOW-rollback-range", "DeleteVersionsFrom / traverseRange")
-	} else {
-		n := 0
-		for _, in := range callsIn(dvf, predStatic(tr)) {
-			cc := callCommon(in)
-			start := roleOf(l, cc.Args[1], "ndb", 0)
-			end := roleOf(l, cc.Args[2], "ndb", 0)
-			if !strings.Contains(start, "nodeKeyPrefixFormat") {
-				continue
-			}
-			n++
-			okStart := strings.HasPrefix(start, "KeyInt64(global:nodeKeyPrefixFormat,") && strings.Contains(start, "arg0")
-			okEnd := strings.HasPrefix(end, "KeyInt64(global:nodeKeyPrefixFormat,(getLatestVersion(") && strings.HasSuffix(end, "#1+1))")
-			c.decide("FLOW-rollback-range", "DeleteVersionsFrom range start", l.ipos(in), okStart, "starts at the node keys of fromVersion (or just above the legacy boundary): "+start, "range delete starts at `"+start+"`")
-			c.decide("FLOW-rollback-range", "DeleteVersionsFrom range end", l.ipos(in), okEnd, "ends at latest+1 (exclusive): "+end, "range delete ends at `"+end+"`, not at latest+1")
-		}
-		if n == 0 {
-			c.anchorMissing("FLOW-rollback-range", "no range delete over the node key-space")
-		}
-	}
+	checkRollbackRange(c)
 	// (4)
 	for _, spec := range []struct{ fn, callee string }{{"*MutableTree.saveFastNodeAdditions", "*nodeDB.SaveFastNode"}, {"*MutableTree.saveFastNodeRemovals", "*nodeDB.DeleteFastNode"}} {
 		fn := l.Func("", spec.fn)
@@ -207,6 +185,38 @@ func checkC12(c *Ctx) {
 				}
 			}
 			c.decide("PASS-index-maintenance", l.fname(cb)+" collects every pending key", l.pos(cb.Pos()), all, "the Range callback always continues", "the Range callback can stop early: pending entries are dropped")
+		}
+	}
+}
+
+// checkRollbackRange (shared by C12, C09, C16): the range delete of a rollback
+// covers the new-format node keys of exactly [requested version, latest+1).
+func checkRollbackRange(c *Ctx) {
+	l := c.L
+	c.rule("FLOW-rollback-range", "rollback deletes exactly the node keys of versions >= fromVersion", 2)
+	dvf := l.Func("", "*nodeDB.DeleteVersionsFrom")
+	tr := l.Func("", "*nodeDB.traverseRange")
+	if dvf == nil || tr == nil {
+		c.anchorMissing("FLOW-rollback-range", "DeleteVersionsFrom / traverseRange")
+	} else {
+		n := 0
+		for _, in := range callsIn(dvf, predStatic(tr)) {
+			cc := callCommon(in)
+			start := roleOf(l, cc.Args[1], "ndb", 0)
+			end := roleOf(l, cc.Args[2], "ndb", 0)
+			if !strings.Contains(start, "nodeKeyPrefixFormat") {
+				continue
+			}
+			n++
+			// exactly the requested version: a start "just above the legacy boundary" misses the (legacy version, 0)
+			// copies of legacy roots that later commits re-saved in the new key-space
+			okStart := start == "KeyInt64(global:nodeKeyPrefixFormat,arg0)"
+			okEnd := strings.HasPrefix(end, "KeyInt64(global:nodeKeyPrefixFormat,(getLatestVersion(") && strings.HasSuffix(end, "#1+1))")
+			c.decide("FLOW-rollback-range", "DeleteVersionsFrom range start", l.ipos(in), okStart, "starts at the node keys of the requested version", "range delete of the new key-space starts at `"+start+"`, not at the requested version: node keys of erased versions below that start (re-saved legacy roots under (legacy version, 0)) survive the rollback, and the reopened database takes the highest of them for its latest version")
+			c.decide("FLOW-rollback-range", "DeleteVersionsFrom range end", l.ipos(in), okEnd, "ends at latest+1 (exclusive): "+end, "range delete ends at `"+end+"`, not at latest+1")
+		}
+		if n == 0 {
+			c.anchorMissing("FLOW-rollback-range", "no range delete over the node key-space")
 		}
 	}
 }
